@@ -375,7 +375,31 @@ pub fn tok_corpus(tier: Tier) -> Vec<(TokCfg, String)> {
     for s in crate::c15::keyword_prefix_corpus() {
         v.push((TokCfg { cdata: true, ..Default::default() }, s));
     }
+    // every string of <= 5 symbols over the line-break alphabet (flags set by one character and
+    // consumed by a later one: CR..LF with text, markup or a reference in between), in every text-like state
+    for (ci, cfg) in cfgs.iter().enumerate() {
+        for s in small_strings(&["\r", "\n", "a", "<p>", "&amp;", "\0"], if ci == 0 { 5 } else { 4 }) {
+            v.push((cfg.clone(), s));
+        }
+    }
     v
+}
+
+/// all non-empty strings of at most `k` symbols over `alpha`
+pub fn small_strings(alpha: &[&str], k: usize) -> Vec<String> {
+    let mut out = vec![];
+    let mut level: Vec<String> = vec![String::new()];
+    for _ in 0..k {
+        let mut next = vec![];
+        for p in &level {
+            for a in alpha {
+                next.push(format!("{p}{a}"));
+            }
+        }
+        out.extend(next.iter().cloned());
+        level = next;
+    }
+    out
 }
 
 pub fn tree_corpus(tier: Tier) -> Vec<(TreeCfg, String)> {
@@ -402,6 +426,11 @@ pub fn tree_corpus(tier: Tier) -> Vec<(TreeCfg, String)> {
     }
     for s in STRESS {
         v.push((cfgs[0].clone(), s.to_string()));
+    }
+    for pre in ["", "<pre>", "<textarea>", "<title>", "<script>", "<table>", "<svg>"] {
+        for t in small_strings(&["\r", "\n", "a", "<b>", "&amp;"], 4) {
+            v.push((cfgs[0].clone(), format!("{pre}{t}")));
+        }
     }
     for s in ["<meta charset=x>y", "<meta http-equiv=content-type content='a;charset=b'>y", "<table><meta charset=x>", "<pre>\r\n\r\nx", "<textarea>\r\n</textarea>", "<table> x<b>y</table>", "a\u{feff}b"] {
         v.push((cfgs[0].clone(), s.to_string()));
